@@ -244,10 +244,28 @@ package stat
 // Kendall: the missing len(weights) check was repaired ("fix: Kendall rejects a weights slice
 // whose length differs from the data"); with it the documented length panic is the only one and
 // no element of weights is read out of range.
+// Kendall's tau as the defining pair sum: kpair is +1 for a concordant pair (the differences of x
+// and of y have the same sign bit) and -1 otherwise; krow(i, j) sums the pairs (i, k) for
+// i < k < j, ktot(i, n) the rows below i. math.Signbit is an uninterpreted predicate, the same
+// one in the code and in the contract. Weighted: every pair counts with weights[i]*weights[j].
+//@ spec kpair(x []float64, y []float64, i int, k int) float64 = ite(math.Signbit(x[k]-x[i]) == math.Signbit(y[k]-y[i]), 1, -1)
+//@ spec rec krow(x []float64, y []float64, i int, j int) float64 decreases j - i = ite(j <= i+1, 0, krow(x, y, i, j-1) + kpair(x, y, i, j-1))
+//@ spec rec ktot(x []float64, y []float64, i int, n int) float64 decreases i = ite(i <= 0, 0, ktot(x, y, i-1, n) + krow(x, y, i-1, n))
+//@ spec rec wkrow(x []float64, y []float64, w []float64, i int, j int) float64 decreases j - i = ite(j <= i+1, 0, wkrow(x, y, w, i, j-1) + w[i]*w[j-1]*kpair(x, y, i, j-1))
+//@ spec rec wktot(x []float64, y []float64, w []float64, i int, n int) float64 decreases i = ite(i <= 0, 0, wktot(x, y, w, i-1, n) + wkrow(x, y, w, i-1, n))
+//@ spec rec swrow(w []float64, i int, j int) float64 decreases j - i = ite(j <= i+1, 0, swrow(w, i, j-1) + w[i]*w[j-1])
+//@ spec rec swtot(w []float64, i int, n int) float64 decreases i = ite(i <= 0, 0, swtot(w, i-1, n) + swrow(w, i-1, n))
+
 //@ func Kendall props: C10
 //@ valid len(x) == len(y) && (weights == nil || len(x) == len(weights))
 //@ panics iff !valid, before-writes
 //@ writes nothing
+//@ ensures [real] weights == nil && len(x) > 1 ==> result == ktot(x, y, len(x), len(x)) / float64(len(x)*(len(x)-1)/2)
+//@ ensures [real] weights != nil && swtot(weights, len(x), len(x)) != 0 ==> result == wktot(x, y, weights, len(x), len(x)) / swtot(weights, len(x), len(x))
+//@ loop 1: invariant [real] cc - dc == ktot(x, y, i, n)
+//@ loop 2: invariant [real] cc - dc == ktot(x, y, i, n) + krow(x, y, i, j) && i <= j
+//@ loop 3: invariant [real] cc - dc == wktot(x, y, weights, i, n) && sumWeights == swtot(weights, i, n)
+//@ loop 4: invariant [real] cc - dc == wktot(x, y, weights, i, n) + wkrow(x, y, weights, i, j) && sumWeights == swtot(weights, i, n) + swrow(weights, i, j) && i <= j
 
 //@ func Correlation props: C10
 //@ option delegate-panics
@@ -275,7 +293,34 @@ package stat
 
 // ---- moments ------------------------------------------------------------------------------
 
-//@ func Moment MomentAbout Skew ExKurtosis props: C10
+// powdev, wpowdev: sums of powers of the deviations from m (math.Pow is an uninterpreted function,
+// the same one in the code and in the contract: the clause pins down which power of which
+// deviation is summed and what the sum is divided by, not the value of the power).
+//@ spec rec powdev(x []float64, m float64, p float64, n int) float64 decreases n = ite(n <= 0, 0, powdev(x, m, p, n-1) + math.Pow(x[n-1]-m, p))
+//@ spec rec wpowdev(x []float64, w []float64, m float64, p float64, n int) float64 decreases n = ite(n <= 0, 0, wpowdev(x, w, m, p, n-1) + w[n-1]*math.Pow(x[n-1]-m, p))
+
+// Moment: E[(x - mean)^N] without degrees-of-freedom correction.
+//@ func Moment props: C10
+//@ option delegate-panics
+//@ valid weights == nil || len(x) == len(weights)
+//@ panics iff !valid, before-writes
+//@ writes nothing
+//@ ensures [real] weights == nil && len(x) > 0 ==> result == powdev(x, amean(x), moment, len(x)) / float64(len(x))
+//@ ensures [real] weights != nil && f64.fsum(weights, len(weights)) != 0 ==> result == wpowdev(x, weights, wmean(x, weights), moment, len(x)) / f64.fsum(weights, len(weights))
+//@ loop 1: invariant [real] m == powdev(x, mean, moment, it)
+//@ loop 2: invariant [real] m == wpowdev(x, weights, mean, moment, it) && sumWeights == f64.fsum(weights, it)
+
+//@ func MomentAbout props: C10
+//@ option delegate-panics
+//@ valid weights == nil || len(x) == len(weights)
+//@ panics iff !valid, before-writes
+//@ writes nothing
+//@ ensures [real] weights == nil && len(x) > 0 ==> result == powdev(x, mean, moment, len(x)) / float64(len(x))
+//@ ensures [real] weights != nil && f64.fsum(weights, len(weights)) != 0 ==> result == wpowdev(x, weights, mean, moment, len(x)) / f64.fsum(weights, len(weights))
+//@ loop 1: invariant [real] m == powdev(x, mean, moment, it)
+//@ loop 2: invariant [real] m == wpowdev(x, weights, mean, moment, it) && sumWeights == f64.fsum(weights, it)
+
+//@ func Skew ExKurtosis props: C10
 //@ option delegate-panics
 //@ valid weights == nil || len(x) == len(weights)
 //@ panics iff !valid, before-writes
